@@ -2128,6 +2128,8 @@ func transAll(v1, v2 *pkg) string {
 		{file: "batcher.go", recv: "batcher", name: "NeedsCapacity", lean: "v2_NeedsCapacity"},
 		{file: "batcher.go", recv: "batcher", name: "Start", lean: "v2_capacityArm", sliceAt: "if r.ratelimiter != nil {", sliceHas: "r.NeedsCapacity()", sliceN: 1, sliceOut: []string{"giveMeCalled", "giveMeArg"},
 			inputs: map[string]string{"r.ratelimiter != nil": "limited:bool", "r.emitRequest": "emitRequest:bool"}, captureCalls: map[string]string{"r.ratelimiter.GiveMe": "giveMe"}},
+		{file: "batcher.go", recv: "batcher", name: "Enqueue", lean: "v2_Enqueue", view: "_enqw", opaque: true,
+			inputs: map[string]string{"r.buffer.enqueue(op, r.errorOnFullBuffer)": "enqErr:err"}},
 		{file: "batcher.go", recv: "batcher", name: "Enqueue", lean: "v2_enqueueTail", sliceAt: "r.incTarget(int(op.Cost()))", sliceN: 4,
 			inputs: map[string]string{"op.Cost()": "cost:int", "r.buffer.enqueue(op, r.errorOnFullBuffer)": "enqErr:err"}},
 		{file: "batcher.go", recv: "batcher", name: "tryReserveBatchSlot", lean: "v2_tryReserveBatchSlot", view: "_slots", chanCap: map[string]string{"inflight": "maxConcurrentBatches"}},
